@@ -158,11 +158,12 @@ def handleL5c (j : Json) : Except String Json := do
   let c09 := holdsC09 execs && txOk
   let c10 := holdsC10 execs (gn oj "closedErrs")
   -- everything was dropped and collected: nothing may be left open or cached
-  let c11 := execs.all (fun e => !e.closedBefore) && gn oj "closedErrs" == 0 &&
+  let c11 := gn oj "dupIDs" == 0 && gn oj "stmtEntriesLeft" == 0 &&
+    execs.all (fun e => !e.closedBefore) && gn oj "closedErrs" == 0 &&
     holdsC11 (gn oj "doubleClose") (gn oj "openStmts") (gn oj "cacheLeft") 4 true (gn oj "cacheLeft")
   let why := (if c09 then "" else "an execution used a statement prepared for another SQL or DB, or a transaction's statement ran outside its connection; ") ++
     (if c10 then "" else "a closed statement was executed; ") ++
-    (if c11 then "" else s!"a statement was closed while a user still held it, or after dropping everything: open driver statements {gn oj "openStmts"}, cache entries {gn oj "cacheLeft"}, double closes {gn oj "doubleClose"}")
+    (if c11 then "" else s!"two Statements share a cache id ({gn oj "dupIDs"}), Statement entries left after everything was dropped ({gn oj "stmtEntriesLeft"}), a statement was closed while a user still held it, or after dropping everything: open driver statements {gn oj "openStmts"}, cache entries {gn oj "cacheLeft"}, double closes {gn oj "doubleClose"}")
   pure (Json.mkObj [("c09", Json.bool c09), ("c10", Json.bool c10), ("c11", Json.bool c11), ("c12", Json.bool txOk),
     -- C16: the SQL a call runs is the SQL of its own arguments, whatever runs concurrently
     ("c16", Json.bool (holdsC09 execs)), ("why", Json.str why),
